@@ -193,6 +193,10 @@ def run_ref(src: str, entry: str = "main", max_results: int = 2000, extra_env: d
         "comptime": lambda x: x,
         "py": lambda x: x,
         "__name__": "pyref_mod",
+        # qubits in the |0> state only (C05's mz helper): measuring a fresh qubit gives False
+        "qubit": lambda: object(),
+        "measure": lambda q: False,
+        "discard": lambda q: None,
     }
     if extra_env:
         env.update(extra_env)
